@@ -112,14 +112,16 @@ def post_exit(ctx, kind, result):
     ctx.check("stopped:nothing-sent-nothing-buffered",
               z3.Implies(_in(ctx, ("Stopped",)), B(len(buf) == 0 and len(sent) == 0)), "postcondition")
     if failed:
-        ctx.check("failed-attempt:recovery-state-becomes-Failed", SVs(ctx.spec("self._state").term) == z3.StringVal("Failed"), "postcondition")
+        states = ctx.ghost.get("states", [])
+        ctx.check("failed-attempt:the-runner-is-told-to-enter-Failed",
+                  z3.Or([SVs(x.term) == z3.StringVal("Failed") for x in states]) if states else z3.BoolVal(False), "postcondition")
 
 
 post_async = Contract(
     target=R + "_post_async", types=TYPES, raises={},
     calls={"self._dispatcher.send_async": _send, "self._buffer_message": _buffer, "self._set_state": _set_state,
            "M.ErrorMessage": lambda ctx, a, k: ctx.fresh("error_message", None)},
-    on_exit=post_exit)
+    on_exit=post_exit, on_yield=lambda ctx: _interference(ctx))
 
 
 # ---------------------------------------------------------------------------------------------------------------- catching up
@@ -207,12 +209,13 @@ def batch_exit(ctx, kind, result):
 
 
 def _interference(ctx):
-    """await: other coroutines of the runner may run (buffer task appends messages, posts fail and re-buffer): the buffer's content and
-    length are unknown afterwards, the recovery state too"""
+    """await: other coroutines of the runner may run (buffer task appends messages, other posts fail, re-buffer and change the recovery
+    state): the buffer's content and length and the recovery state are unknown afterwards"""
     st = ctx.st
     me = ctx.local("self")
     if me is None:
         return
+    st.write("_state", RID(me.term), ctx.fresh("state_after_await", "str").term)
     buf = st.read("_message_buffer", RID(me.term))
     n = st.fresh("buflen_after_await", z3.IntSort())
     st.assume(n >= 0)
@@ -221,7 +224,7 @@ def _interference(ctx):
     st.write("$items", RID(buf), st.fresh("bufitems_after_await", items.sort()))
 
 
-_interference.modifies = ["$len", "$items"]
+_interference.modifies = ["$len", "$items", "_state"]
 
 send_batch = Contract(
     target=R + "_send_buffered_batch", types=dict(TYPES, message_buffer="list[EngineMessage]"), raises={},
@@ -237,7 +240,7 @@ TRUSTED = ["dispatcher.send_async either returns (one delivery attempt made) or 
            "asyncio.gather runs every coroutine it is given to completion; `await coro` runs it",
            "wrap(message) (progress logging closure used for 100 or more buffered messages) posts its message exactly once",
            "_set_state is represented by its effect on _state only (callbacks, task cancellation not followed)",
-           "interference at awaits in _send_buffered_batch: buffer content and length arbitrary afterwards"]
+           "interference at every await of _post_async and _send_buffered_batch: buffer content, buffer length and recovery state arbitrary afterwards"]
 CLAUSES = {"a message keeps one unique sequence number across resends": "assign_sequence_number postconditions (idempotent, strictly increasing counter)",
            "every message produced while disconnected is delivered after reconnection / none stranded once caught up":
                "_post_async buffers in every connection-down state and after every failed attempt; _buffer_message appends and keeps the rest; "
